@@ -9,8 +9,10 @@ from plumpy import persistence
 MEDIA = ('copy', 'pickle', 'yaml')
 
 
-def bundle_of(proc, loader=None):
+def bundle_of(proc, loader=None, dereference=False):
     ctx = persistence.LoadSaveContext(loader=loader) if loader is not None else None
+    if dereference:
+        return persistence.Bundle(proc, ctx, dereference=True)  # a bundle that shares nothing with the live process
     return persistence.Bundle(proc, ctx)
 
 
